@@ -2,7 +2,7 @@
 Runtime stream: programs with one fault planted at a generator-known line and call depth; the generator's ground
 truth (line of the innermost statement, call-site line of every active call) is compared with the location lines of
 the rendered error; the same programs go through the three-way run (Go = model = spec result/trace)."""
-from props import progs, c18_handled
+from props import progs, c18_handled, c18_decl
 from props.progs import replay  # noqa
 from zngen import *
 
@@ -11,7 +11,11 @@ RULE = ("programs with one fault (抛出, 1/0, undefined name, index out of rang
         "line, the call that never began has no entry; a 每当 loop whose condition can no longer be evaluated on its second or third pass — "
         "the line is the loop's; a failing library function after 导入《@JSON》 — the library's frame is shown as built-in code; a type / "
         "method / constructor declaration that fails while the declarations of its block are executed ahead of the other statements: failing "
-        "property default, a name declared twice, a constructor for a name that is no type — the line is the declaration's; a statement that "
+        "property default, a name declared twice, a constructor for a name that is no type — the line is the declaration's; a type declaration "
+        "that fails THROUGH A CALL made while its property defaults are evaluated (a method, a chain of two methods, a user-defined "
+        "constructor, an object method, a call with the wrong number of arguments, a failing built-in method; the failing default first / "
+        "in the middle / last; declarations before it that succeeded through calls of the same callee, declarations after it that are "
+        "never reached — props/c18_decl.py): the declaration's line is a call-site line, followed by the callees' lines; a statement that "
         "is a BARE member expression `变量之不存在` on a list / text / object / number value or `其不存在` in the body of an object method "
         "or a constructor, and the same member expressions as the failing part of a larger statement whose earlier parts span lines — the "
         "line is the statement's) planted at a "
@@ -224,6 +228,8 @@ def fault_member(g, rng):
 
 
 def fault(g, rng):
+    if rng.random() < 0.07:
+        return c18_decl.fault_decl_call(g, rng)      # (f') a declaration that fails through a call made while it is evaluated
     k = rng.random()
     if k < 0.12:
         return fault_arity(g, rng)
@@ -326,7 +332,7 @@ def gen(g, rng):
                 # an episode that begins and ends while this call (and its callers) are active
                 fb += c18_handled.site_stmts(g, rng, ep) + [filler(g, rng) for _ in range(rng.randint(0, 1))]
         if i == depth:
-            inner = flt.pre + [fstmt]
+            inner = flt.pre + [fstmt] + list(getattr(flt, 'post', []))   # post: declarations after the failing one
         else:
             inner = ExprS(Call('显示', ml(rng, [call_of(i)])))
             inner.tag = 'call_%d' % i
@@ -361,7 +367,7 @@ def gen(g, rng):
             main += c18_handled.site_stmts(g, rng, ep) + [filler(g, rng) for _ in range(rng.randint(0, 1))]
     main += [filler(g, rng) for _ in range(rng.randint(0, 2))]
     if depth == 0:
-        main += flt.pre + [fstmt]
+        main += flt.pre + [fstmt] + list(getattr(flt, 'post', []))
     else:
         c0 = ExprS(Call('显示', ml(rng, [call_of(0)])))
         c0.tag = 'call_0'
@@ -375,7 +381,9 @@ def gen(g, rng):
     p = Program([], body + main, imports=flt.imports)
     p.handled_kinds = (['episodes-%d' % len(episodes)] + sorted({k for _at, ep in episodes for k in ep.kinds})) if episodes else \
         (['plain'] if handled else [])
-    p.fault_inner = flt.inner
+    # tags of the statements inside callees that are active at the fault, outermost first (one tag or a list of tags)
+    p.fault_inner = [flt.inner] if isinstance(flt.inner, str) else list(flt.inner or [])
+    p.decl_kinds = list(getattr(flt, 'kind_extra', []))
     return p, depth, tail, flt.kind
 
 
@@ -396,7 +404,7 @@ def run(ctx):
     srcs, go, model, spec = progs.run_stream(ctx, 'chain', ps, check_lines=('member',),
                                              nontrivial=lambda src, go: '层1' in src or '多行' in src or '第二行' in src or '导入' in src
                                              or '错参' in src or '错型' in src or '法型' in src or '数甲' in src or '“文”' in src
-                                             or '败型' in src or '重名' in src or '重型' in src or '无此型' in src or '持' in src or '属型' in src)
+                                             or '败型' in src or '重名' in src or '重型' in src or '无此型' in src or '持' in src or '属型' in src or '唤型' in src)
     # ground truth of the generator vs the rendered error
     wrong = []
     for (p, _), (depth, tail, kind), src, g_out in zip(ps, meta, srcs, go):
@@ -404,8 +412,8 @@ def run(ctx):
         if getattr(p, 'fault_import', None) is not None:
             tags['fault'] = p.import_lines[p.fault_import]
         exp = ['main:%d' % (tags['call_%d' % i] + 1) for i in range(depth)] + ['main:%d' % (tags['fault'] + 1)]
-        if getattr(p, 'fault_inner', None):
-            exp.append('main:%d' % (tags[p.fault_inner] + 1))
+        for t in getattr(p, 'fault_inner', None) or []:
+            exp.append('main:%d' % (tags[t] + 1))
         if tail:
             exp.append(tail)
         case = 'run ' + cps(src)
@@ -415,6 +423,8 @@ def run(ctx):
         ctx.count('fault-' + kind)
         for hk in getattr(p, 'handled_kinds', []):
             ctx.count('handled:' + hk)
+        for dk in getattr(p, 'decl_kinds', []):
+            ctx.count(dk)
         if got != '>'.join(exp):
             wrong.append((len(src), case, g_out, 'expected chain ' + '>'.join(exp)))
     for _n, case, g_out, exp in sorted(wrong):     # the shortest program first: it heads the replay file
@@ -442,8 +452,8 @@ def run(ctx):
                 return 'main:%d' % (mt[tag] + 1)
             return '%s:%d' % (progs.hx(progs.MODULE_NAME), dt[tag] + 1)
         exp = [where('call_%d' % i) for i in range(depth)] + [where('fault')]
-        if getattr(p, 'fault_inner', None):
-            exp.append(where(p.fault_inner))
+        for t in getattr(p, 'fault_inner', None) or []:
+            exp.append(where(t))
         if tail:
             exp.append(tail)
         f = g_out.split(' ')
@@ -528,6 +538,39 @@ def run(ctx):
             ctx.violation('syntax:ground-truth', line, g_out, 'expected syntax error at ' + exp)
         ctx.nontriv(line)
     ctx.streams.append({'stream': 'syntax-planted', 'cases': len(syn_lines), 'overindented': n_over})
+    # ---- the same broken texts as an IMPORTED module (real files): the error names that module, the line and the caret are the ones
+    # of the module's own text; nothing of the importing file has run, the modules imported before it have
+    def _files(files, main):
+        return 'runfiles %d %s %s' % (len(files), ' '.join('%s %s' % (hx(n + '.zn'), cps(t)) for n, t in files), hx(main + '.zn'))
+    good = '（显示：“好”）\n如何好法？\n    输出1'
+    mod_lines, mod_expect = [], []
+    picks = [k for k, g_out in enumerate(syn_go) if g_out.startswith('err syn')]
+    for k in rng.sample(picks, min(len(picks), ctx.n(60, 1500))):
+        text = ''.join(chr(int(x, 16)) for x in syn_lines[k].split(' ')[1].split('.'))
+        code = syn_go[k].split(' ')[2]
+        shape = rng.choice(['direct', 'after-good', 'nested', 'subdir'])
+        head = rng.choice(['', '注：说明\n', '\n\n'])
+        name, files, trace = '坏', [], '-'
+        if shape == 'direct':
+            files = [('主', head + '导入“坏”\n（显示：“主”）'), ('坏', text)]
+        elif shape == 'after-good':
+            files = [('主', head + '导入“好”\n导入“坏”\n（显示：“主”）'), ('好', good), ('坏', text)]
+            trace = hx('好')
+        elif shape == 'nested':
+            files = [('主', head + '导入“好”\n导入“中”\n（显示：“主”）'), ('好', good), ('中', '导入“坏”\n（显示：“中”）'), ('坏', text)]
+            trace = hx('好')
+        else:
+            name = '子-坏'
+            files = [('主', head + '导入“子-坏”\n（显示：“主”）'), ('子/坏', text)]
+        mod_lines.append(_files(files, '主'))
+        mod_expect.append('err syn %s %s:%s | %s' % (code, hx(name), syn_expect[k].split(':', 1)[1], trace))
+        ctx.count('syntax-in-module-' + shape)
+    for line, g_out, exp in zip(mod_lines, ctx.run_go(mod_lines), mod_expect):
+        ctx.evaluations += 1
+        if g_out != exp:
+            ctx.violation('syntax-in-module:ground-truth', line, g_out, 'expected ' + exp)
+        ctx.nontriv(line)
+    ctx.streams.append({'stream': 'syntax-in-module', 'cases': len(mod_lines)})
     # the same programs with CRLF line ends: physical lines are the same
     crlf = [s.replace('\n', '\r\n') for s in srcs[: max(200, n // 5)]]
     lines = ['run ' + cps(s) for s in crlf]
@@ -544,5 +587,5 @@ def run(ctx):
         p, d, t, _kind = gen(g, rng)
         if p.imports:
             continue      # the mixed renderer lays out the statement block only: programs with an import block stay in the chain stream
-        mixed.append((p, ['call_%d' % i for i in range(d)] + ['fault'] + ([p.fault_inner] if p.fault_inner else []), t))
+        mixed.append((p, ['call_%d' % i for i in range(d)] + ['fault'] + list(p.fault_inner or []), t))
     c18_lineends.run_mixed(ctx, g, mixed)
